@@ -1,10 +1,10 @@
 #!/bin/bash
-# usage: tools/evalall.sh <Cxx> <mutdir>   -- evaluates <mutdir>/_out/*/patch.diff one after the other; results to /root/mut/results/<Cxx>_<i>.txt
+# usage: tools/evalall.sh <Cxx> <mutdir>   -- evaluates <mutdir>/_out/*/patch.diff one after the other; results to $D/tools/mut/results/<Cxx>_<i>.txt
 P=$1; M=$2
-mkdir -p /root/mut/results
+mkdir -p $D/tools/mut/results
 for d in $M/_out/*/; do
   i=$(basename $d)
   [ -f $d/patch.diff ] || continue
-  ( cd /verif && tools/evalmut.sh $P $d/patch.diff quick ${P}_$i ) > /root/mut/results/${P}_$i.txt 2>&1
-  echo "$P $i -> $(head -1 /root/mut/results/${P}_$i.txt)"
+  ( cd /verif && tools/evalmut.sh $P $d/patch.diff quick ${P}_$i ) > $D/tools/mut/results/${P}_$i.txt 2>&1
+  echo "$P $i -> $(head -1 $D/tools/mut/results/${P}_$i.txt)"
 done
